@@ -11,7 +11,7 @@ RULE = ("values of a recursive 'any serde type' generator (depth <= 5) interpret
         "extremes, f32 / f64 incl. NaN / inf / -0.0, bool, char, str, collect_str, bytes, none / some, unit, unit "
         "struct, unit / newtype / tuple / struct variants, newtype struct, seq (with and without length), tuple, tuple "
         "struct, map (serialize_key/value and serialize_entry) with keys of every kind incl. the rejected ones, "
-        "struct, the public Duration / Timestamp wrappers, and serde_json documents; converted through to_value and "
+        "struct, values that consult is_human_readable (readable form expected, as under serde_json), maps holding one number / text under several key kinds, the public Duration / Timestamp wrappers, and serde_json documents; converted through to_value and "
         "Context::add_variable; oracle: the serde-shape map, and on the JSON-representable subset equality of "
         "to_value(x).json() with serde_json::to_value(x) (both computed in the driver); non-trivial = spec of depth "
         ">= 2 or with a non-string key; distinct = distinct spec")
